@@ -8,12 +8,18 @@ def tallyB (b : BlockID) : List Int → List (Option Vote) → Int
   | _ :: ps, none :: ss => tallyB b ps ss
   | _, _ => 0
 
-theorem tallyCommit_ok (sigok : Nat → Vote → Bool) (b : BlockID) (H R : Int) :
+/-- what `VerifyCommit` demands of the precommit in slot `j` when the slot check is on: it carries
+    the index and the address of the validator of that slot -/
+def SlotOk (vals : List Validator) (i0 j : Nat) (v : Vote) : Prop :=
+  v.idx = ((i0 + j : Nat) : Int) ∧ ∃ val, vals[j]? = some val ∧ val.addr = v.addr
+
+theorem tallyCommit_ok (slot : Bool) (sigok : Nat → Vote → Bool) (b : BlockID) (H R : Int) :
     ∀ (slots : List (Option Vote)) (vals : List Validator) (i0 : Nat) (acc : Int),
     vals.length = slots.length →
     (∀ (j : Nat) (v : Vote), slots[j]? = some (some v) →
-      v.height = H ∧ v.round = R ∧ v.type = 2 ∧ sigok (i0 + j) v = true) →
-    tallyCommit sigok b H R i0 vals slots acc = .ok (acc + tallyB b (powers vals) slots) := by
+      v.height = H ∧ v.round = R ∧ v.type = 2 ∧ sigok (i0 + j) v = true ∧
+      (slot = true → SlotOk vals i0 j v)) →
+    tallyCommit slot sigok b H R i0 vals slots acc = .ok (acc + tallyB b (powers vals) slots) := by
   intro slots
   induction slots with
   | nil =>
@@ -27,26 +33,38 @@ theorem tallyCommit_ok (sigok : Nat → Vote → Bool) (b : BlockID) (H R : Int)
     | cons val vt =>
       have hl' : vt.length = t.length := by simpa using hl
       have hall' : ∀ (j : Nat) (v : Vote), t[j]? = some (some v) →
-          v.height = H ∧ v.round = R ∧ v.type = 2 ∧ sigok (i0 + 1 + j) v = true := by
+          v.height = H ∧ v.round = R ∧ v.type = 2 ∧ sigok (i0 + 1 + j) v = true ∧
+          (slot = true → SlotOk vt (i0 + 1) j v) := by
         intro j v hv
-        have := hall (j + 1) v (by simpa using hv)
+        obtain ⟨a1, a2, a3, a4, a5⟩ := hall (j + 1) v (by simpa using hv)
         have e : i0 + (j + 1) = i0 + 1 + j := by omega
-        rw [e] at this; exact this
+        rw [e] at a4
+        refine ⟨a1, a2, a3, a4, ?_⟩
+        intro hs
+        obtain ⟨b1, b2⟩ := a5 hs
+        exact ⟨by rw [b1, e], by simpa using b2⟩
       cases s with
       | none =>
         simp only [tallyCommit, powers, List.map_cons, tallyB]
         rw [ih vt (i0 + 1) acc hl' hall']; rfl
       | some p =>
-        obtain ⟨h1, h2, h3, h4⟩ := hall 0 p (by simp)
+        obtain ⟨h1, h2, h3, h4, h5⟩ := hall 0 p (by simp)
+        have h4' : sigok i0 p = true := by simpa using h4
+        have hslot : ¬ (slot = true ∧ (p.idx ≠ (i0 : Int) ∨ p.addr ≠ val.addr)) := by
+          rintro ⟨hs, hbad⟩
+          obtain ⟨b1, val', b2, b3⟩ := h5 hs
+          simp at b2; subst b2
+          rcases hbad with hb | hb
+          · exact hb (by simpa using b1)
+          · exact hb b3.symm
         simp only [tallyCommit, powers, List.map_cons, tallyB]
-        simp only [h1, h2, h3, ne_eq, not_true_eq_false, if_false, Nat.add_zero] at h4 ⊢
-        simp only [h4, Bool.not_true, Bool.false_eq_true, if_false]
+        rw [if_neg (by simp [h1]), if_neg (by simp [h2]), if_neg (by simp [h3]),
+          if_neg (by simp [h4']), if_neg hslot]
         by_cases hb : b = p.bid
-        · subst hb
-          simp only [if_true]
+        · rw [if_pos hb, if_pos hb]
           rw [ih vt (i0 + 1) _ hl' hall']
           simp [powers]; omega
-        · simp only [hb, if_false]
+        · rw [if_neg hb, if_neg hb]
           rw [ih vt (i0 + 1) _ hl' hall']
           simp [powers]
 
